@@ -1340,7 +1340,9 @@ extern "C" int __wrap_rtr_wait_for_sync(struct rtr_socket *s)
 			W->ctx.count("probe_notify_consumed_while_established");
 		}
 	}
-	if (p.consumed > p.sync_enter_consumed) { // some PDU was received (possibly slowly) during this wait
+	// a complete header was received during this wait: the rest of that PDU is awaited with the receive timeout, whatever
+	// the refresh deadline says (a fragment of a header licenses no delay: the deadline of the wait is absolute)
+	if (p.consumed >= p.sync_enter_consumed + 8) {
 		p.stray_since_success = true;
 		if (rc != RTR_SUCCESS)
 			W->ctx.count("probe_stray_pdu_while_established");
